@@ -3,6 +3,7 @@ import IstioModel.C13.Model
 import IstioModel.C13.Conc
 import IstioModel.C13.Cla
 import IstioModel.C13.Net
+import IstioModel.C13.Svc
 
 /-! Line-protocol driver for C13 (stream `index`). See harness/c13. -/
 namespace IstioModel.C13
@@ -356,19 +357,31 @@ def claOfQuery (d : DState) (proxy : Builder) (gws : List Gw) (q : String) : Str
     showCLA (serveCLA b gws (d.idx (dec svc, dec ns)))
   | _ => "bad-query"
 
-/-- `push <proxy> <mode> <view> <proxyCluster> <proxyNode> <proxyNetwork> <gateways> <query>...`:
-    what the proxy holds for every watched cluster after the push - by the property, the assignment
-    of the current index. -/
+def decPortMap (t : String) : List (String × Nat) :=
+  (decLabels t).map fun kv => (kv.1, decNat kv.2)
+
+/-- `push <proxy> <mode> <view> <proxyCluster> <proxyNode> <proxyNetwork> <ipmode> <mtlsOff> <gateways>
+    <query>...`: what the proxy holds for every watched cluster after the push - by the property, the
+    assignment of the current index.  `drset` / `paset` lines change the configuration on the real
+    side only; what they amount to is in the tokens of the following push lines. -/
 def stepCla (d : DState) (toks : List String) : DState × String :=
   match toks with
-  | "push" :: _ :: _ :: view :: pc :: pn :: pnet :: gws :: qs =>
+  | "push" :: _ :: _ :: view :: pc :: pn :: pnet :: ipmode :: moff :: gws :: qs =>
     let proxy : Builder := {
       view := if view == "-" then none else some (decList view),
-      proxyCluster := dec pc, proxyNode := dec pn, proxyNetwork := dec pnet }
+      proxyCluster := dec pc, proxyNode := dec pn, proxyNetwork := dec pnet,
+      proxyV4 := ipmode.toList.contains '4', proxyV6 := ipmode.toList.contains '6',
+      mtlsOff := tokBool moff }
     let g := decGws gws
     let outs := qs.map (claOfQuery d proxy g)
     -- a panic while building any watched cluster aborts the whole push
     if outs.contains "crash" then (d, "crash") else (d, "served " ++ " || ".intercalate outs)
+  | ["drset", _, _] => (d, "ok")
+  | ["paset", _] => (d, "ok")
+  | ["svcidx", svc, ns, port, labels, pm] =>
+    let eps := serviceEndpointsByPort (d.idx (dec svc, dec ns)) (decPortMap pm) (decNat port) (decLabels labels)
+    let toks := (eps.map encEp).mergeSort (fun a b => !(b < a))
+    (d, "eps " ++ (if toks.isEmpty then "-" else ";".intercalate toks))
   | _ =>
     match decOp toks with
     | none => (d, "bad-op")
